@@ -302,8 +302,8 @@ func c08Run(s *Shard) {
 			s.Begin(c)
 			o, vs := c08CheckList(c, list, draws)
 			s.Report(vs)
-			if o == nil {
-				continue
+			if o == nil || len(vs) > 0 {
+				continue // the per-list clauses failed (e.g. wrong number of entries): no independence bookkeeping on it
 			}
 			pos := 0
 			pattern := ""
